@@ -233,9 +233,9 @@ package callbacks
 //@ site joined-records-preloaded-with-their-own-joins
 //@   match call callbacks.preloadEntryPoint
 //@   in callbacks.preloadEntryPoint
-//@   min-sites 2
-//@   assert joins-below-the-relation: arg1 == nestedJoins [C11]
-//@   assert on-the-handle-made-for-the-record: arg0 == tx [C11]
+//@   min-sites 3
+//@   assert joins-below-the-relation: defined(nestedJoins) ==> arg1 == nestedJoins && arg0 == tx [C11]
+//@   assert embedded-relations-stay-on-this-level: !defined(nestedJoins) ==> arg1 == joins && arg0 == db [C11]
 
 //@ # ---------- C13: association values saved once per operation ----------
 //@ # "Each hook fires exactly once per record": a record reached twice through associations in one Create/Update
